@@ -85,7 +85,7 @@ func VerifC05_RestartHonoured() {
 	f.val.Result = datatransfer.ValidationResult{Accepted: true}
 	req := verifArbitraryRequest("req")
 	zz.Assume(req.MessageType == uint64(types.RestartMessage))
-	req.TransferId = uint64(chid.ID)
+	zz.SetInt(&req.TransferId, uint64(chid.ID))
 	sender := chid.Initiator
 	pre := st
 	_ = f.rcv.receiveRequest(context.Background(), sender, req)
@@ -124,7 +124,7 @@ func VerifC05_RestartAtInitiator() {
 	zz.Assume(st.SelfPeer == st.Initiator)
 	req := verifArbitraryRequest("req")
 	zz.Assume(req.MessageType == uint64(types.RestartMessage))
-	req.TransferId = uint64(chid.ID)
+	zz.SetInt(&req.TransferId, uint64(chid.ID))
 	pre := st
 	// the only way a request can address (I=self,...) is if the sender claims to be us
 	_ = f.rcv.receiveRequest(context.Background(), st.SelfPeer, req)
